@@ -910,6 +910,55 @@ def lazy_steps_before_the_failure(col, tracer, width):
         check_message(col, str(got.exc), tracer.roots()[-1], target, short(spec, 300), ('lazy-steps', desc), width)
 
 
+def cyclic_targets(col, tracer, width):
+    """targets that contain themselves (a dict or list reachable from itself, an object graph with a back reference - the data ** is
+    specified to walk): the error of a failing spec can be rendered, begins with the root target and ends with the original error"""
+    def cyc_dict():
+        d = {'k': 1, 'n': [1, 2]}
+        d['self'] = d
+        return d
+
+    def cyc_list():
+        lst = [1, {'k': 2}]
+        lst.append(lst)
+        return lst
+
+    def cyc_deep():
+        root = {'a': {'b': {'c': []}}}
+        root['a']['b']['c'].append(root['a'])
+        return root
+    cases = [('dict-in-itself', cyc_dict, 'nope'), ('dict-in-itself, nested failure', cyc_dict, ('self', 'self', T['zz'])),
+             ('list-in-itself', cyc_list, T[9]), ('list-in-itself, failing below', cyc_list, (T[1], 'zz')),
+             ('cycle below the root', cyc_deep, 'a.b.zz'), ('cycle below the root, Coalesce', cyc_deep, Coalesce('a.zz', ('a', 'b', 'c', T[0], 'b', T['yy']))),
+             ('failing target is on the cycle', cyc_deep, ('a', 'b', 'c', T[0], T.nope))]
+    for desc, mk, spec in cases:
+        target = mk()
+        tracer.reset()
+        got = call(G, target, spec)
+        col.count('evaluations')
+        col.case(('cyclic-target', desc, width), True)
+        if got.ok or not isinstance(got.exc, GlomError):
+            col.violation('C05/no-glom-error-for-a-failing-step', '%s: %r' % (desc, got), None)
+            continue
+        col.count('error_messages_checked')
+        col.count('messages_for_cyclic_targets')
+        rendered = call(str, got.exc)
+        if not rendered.ok:
+            col.violation('C05/message-cannot-be-rendered:' + type(rendered.exc).__name__,
+                          '%s: glom(<%s>, %s) raised %s, and str() of that error raised %r'
+                          % (desc, desc, short(spec), type(got.exc).__name__, rendered.exc), None)
+            continue
+        msg = rendered.value
+        header_ok, tokens, _ = parse_trace(msg)
+        original = failing_chain(tracer.roots()[-1])[-1].exc
+        if not header_ok or not tokens or tokens[0].kind != 'Target' or tokens[0].depth != 0:
+            col.violation('C05/trace-does-not-begin-with-root-target', '%s: %r' % (desc, msg[:300]), {'message': msg})
+        elif any(len(ln.raw) > width for ln in tokens if ln.kind in ('Target', 'Spec')):
+            col.violation('C05/trace-line-wider-than-the-terminal:depth-0', '%s: a line is wider than %d columns\n%s' % (desc, width, msg), {'message': msg})
+        elif original is not None and msg.rstrip('\n').split('\n')[-1] != exc_line(original):
+            col.violation('C05/last-line-is-not-the-original-error', '%s: last line %r, original error %r' % (desc, msg.rstrip().split('\n')[-1], exc_line(original)), {'message': msg})
+
+
 def child_main(width, seed, shard, nshards, tier):
     col = Collector('C05', tier, shard, nshards)
     import random
@@ -927,6 +976,7 @@ def child_main(width, seed, shard, nshards, tier):
         equal_values_of_different_types(col, tracer, width)
         multi_line_messages(col, tracer, width)
         lazy_steps_before_the_failure(col, tracer, width)
+        cyclic_targets(col, tracer, width)
         n = 400 if tier == 'quick' else 2500
         for _ in range(n):
             one_case(col, rng, tracer, width)
